@@ -1,5 +1,6 @@
 import Receptor.Model.Sockets
 import Receptor.Generated.Facts
+import Receptor.Model.ListenerClose
 /-!
 # C17 — sockets, listeners and streams close at any time without crash or leak
 -/
@@ -234,3 +235,53 @@ example : (run allGuards {} [.listen 7 true, .send 0, .send 0, .close 0, .wake 0
     ∧ (run allGuards {} [.listen 7 true, .send 0, .send 0, .close 0, .wake 0, .wake 0, .close 0, .dial, .connClose 0]).registry = [] := by decide
 
 end Receptor.Sock
+
+namespace Receptor.ListenerClose
+
+/-- the order of the two closes in the source (regenerated fact) -/
+def pcFirstOfFacts : Bool := decide (Receptor.Facts.sock_listener_close_order = "packet-conn<quic-listener")
+
+theorem order_of_source : pcFirstOfFacts = false := by decide +kernel
+
+theorem inv_init : Inv init = true := by decide
+
+theorem inv_step_and_not_stuck : ∀ (a : Fin 6) (b : Fin 5) (t : Bool) (m o : Fin 3),
+    Inv ⟨a, b, t, m, o⟩ = true →
+      stuck false ⟨a, b, t, m, o⟩ = false
+      ∧ (∀ s', stepA false ⟨a, b, t, m, o⟩ = some s' → Inv s' = true)
+      ∧ (∀ s', stepB ⟨a, b, t, m, o⟩ = some s' → Inv s' = true) := by
+  decide
+
+theorem inv_run : ∀ (sched : List Bool) (s : St), Inv s = true → Inv (run false s sched) = true := by
+  intro sched
+  induction sched with
+  | nil => intro s h; exact h
+  | cons w rest ih =>
+    intro s h
+    obtain ⟨a, b, t, m, o⟩ := s
+    obtain ⟨_, hA, hB⟩ := inv_step_and_not_stuck a b t m o h
+    cases w with
+    | true =>
+      simp only [run]
+      cases hs : stepA false ⟨a, b, t, m, o⟩ with
+      | none => simpa [hs] using ih _ h
+      | some s' => simpa [hs] using ih s' (hA s' hs)
+    | false =>
+      simp only [run]
+      cases hs : stepB ⟨a, b, t, m, o⟩ with
+      | none => simpa [hs] using ih _ h
+      | some s' => simpa [hs] using ih s' (hB s' hs)
+
+/-- **listener_close_never_wedges.** With the QUIC listener closed before the packet connection, under every schedule of
+the caller and the transport's read loop: as long as `Listener.Close` has not returned, somebody can move. -/
+theorem listener_close_never_wedges (sched : List Bool) : stuck false (run false init sched) = false := by
+  have h := inv_run sched init inv_init
+  generalize run false init sched = s at h
+  obtain ⟨a, b, t, m, o⟩ := s
+  exact (inv_step_and_not_stuck a b t m o h).1
+
+/-- Witness: the other order has a schedule after which both wait for each other for ever -/
+theorem C17_witness_listener_close_wedges : stuck true (run true init [true, true, false]) = true := by decide
+
+
+end Receptor.ListenerClose
